@@ -169,7 +169,7 @@ func addC05Case(run *Run, o OptSet, label string, a, b *Val) {
 	c.Desc["impl_diff"] = dw
 	c.Desc["impl_equals"] = eq
 	c.Probes = append(c.Probes,
-		Probe{Kind: "corr", Rel: "Diff = diffM", Line: fmt.Sprintf("diff %s %s %s", o.Wire(), aw, bw), Want: dw},
+		Probe{Kind: "corr", Rel: "Diff is empty = diffM is empty", Line: fmt.Sprintf("diffempty %s %s %s", o.Wire(), aw, bw), Want: boolWire(dw == "< >")},
 		Probe{Kind: "corr", Rel: "Equals = equals model", Line: fmt.Sprintf("equals %s %s %s", o.Wire(), aw, bw), Want: eq},
 		Probe{Kind: "oracle", Rel: "C05 diff empty ⇔ Equals", Line: fmt.Sprintf("c05 %s %s %s %s %s", o.Wire(), aw, bw, boolWire(dw == "< >"), eq)},
 	)
